@@ -167,20 +167,30 @@ structure Acc where
   ab : Bool
   deriving Repr, DecidableEq
 
+def Act.isAbort : Act → Bool
+  | .abort | .abortThen | .abortWithStatus _ | .abortWithMsg _ => true
+  | _ => false
+
+/-- what one action of handler `i` other than `Next()` appends to the trace, given whether the request
+    is already aborted, and whether it is aborted afterwards -/
+def ownEv (i : Nat) (ab : Bool) : Act → List Ev × Bool
+  | .emit t => ([.mark i t], ab)
+  | .isAborted t => ([.aborted i t ab], ab)
+  | .abort => ([.abort i], true)
+  | .abortThen => ([.abort i], true)
+  | .abortWithStatus c => ([.status i c, .abort i], true)
+  | .abortWithMsg c => ([.status i c, .write i 0, .abort i], true)
+  | .setStatus c => ([.status i c], ab)
+  | .write t => ([.write i t], ab)
+  | .next => ([], ab)
+
 /-- one action of handler `i`; `R` = what the rest of the chain does when it is allowed to run -/
-def specStep (i : Nat) (R : List Ev × Bool) (acc : Acc) : Act → Acc
-  | .emit t => { acc with tr := acc.tr ++ [.mark i t] }
-  | .isAborted t => { acc with tr := acc.tr ++ [.aborted i t acc.ab] }
-  | .abort => { acc with tr := acc.tr ++ [.abort i], ab := true }
-  | .abortThen => { acc with tr := acc.tr ++ [.abort i], ab := true }
-  | .abortWithStatus c => { acc with tr := acc.tr ++ [.status i c, .abort i], ab := true }
-  | .abortWithMsg c => { acc with tr := acc.tr ++ [.status i c, .write i 0, .abort i], ab := true }
-  | .setStatus c => { acc with tr := acc.tr ++ [.status i c] }
-  | .write t => { acc with tr := acc.tr ++ [.write i t] }
-  | .next =>
+def specStep (i : Nat) (R : List Ev × Bool) (acc : Acc) (a : Act) : Acc :=
+  if a = .next then
     -- the rest of the chain runs inside the FIRST Next() that is not preceded by an abort;
     -- every other Next() does nothing
     if !acc.started && !acc.ab then { tr := acc.tr ++ R.1, started := true, ab := R.2 } else acc
+  else { acc with tr := acc.tr ++ (ownEv i acc.ab a).1, ab := (ownEv i acc.ab a).2 }
 
 /-- The onion: handler `i` is entered, performs its actions — the rest of the chain runs inside its first
     effective `Next()` —, leaves; if it neither called `Next()` nor aborted, the rest of the chain follows
@@ -193,6 +203,61 @@ def onion : Nat → List Handler → List Ev × Bool
     let acc := h.foldl (specStep i R) ⟨[], false, false⟩
     if !acc.started && !acc.ab then ([Ev.enter i] ++ acc.tr ++ [.leave i] ++ R.1, R.2)
     else ([Ev.enter i] ++ acc.tr ++ [.leave i], acc.ab)
+
+/-! #### the same thing in closed form (`onion_cons` in Lemmas/Chain.lean: `onion i (h :: rest) =
+  onionStep i h (onion (i+1) rest)`) -/
+
+/-- events of a stretch of actions during which `Next()` has no effect; also: aborted afterwards? -/
+def flat (i : Nat) : Bool → List Act → List Ev × Bool
+  | ab, [] => ([], ab)
+  | ab, a :: rest =>
+    ((ownEv i ab a).1 ++ (flat i (ownEv i ab a).2 rest).1, (flat i (ownEv i ab a).2 rest).2)
+
+/-- split a handler at its first effective `Next()`: the first one that is not preceded by an abort -/
+def splitNext : List Act → Option (List Act × List Act)
+  | [] => none
+  | a :: rest =>
+    if a = .next then some ([], rest)
+    else if a.isAbort then none
+    else (splitNext rest).map (fun pq => (a :: pq.1, pq.2))
+
+/-- handler `i` in front of a rest-of-chain `R` -/
+def onionStep (i : Nat) (h : Handler) (R : List Ev × Bool) : List Ev × Bool :=
+  match splitNext h with
+  | some (pre, post) =>
+    -- `h = pre ++ Next() :: post`: the rest of the chain runs inside that `Next()`, then `post`
+    -- (where every further `Next()` does nothing) runs to its end
+    ([Ev.enter i] ++ (flat i false pre).1 ++ R.1 ++ (flat i R.2 post).1 ++ [.leave i], (flat i R.2 post).2)
+  | none =>
+    if (flat i false h).2 then
+      -- aborted before any `Next()`: nobody else starts
+      ([Ev.enter i] ++ (flat i false h).1 ++ [.leave i], true)
+    else
+      -- returned without `Next()` and without aborting: the rest of the chain follows
+      ([Ev.enter i] ++ (flat i false h).1 ++ [.leave i] ++ R.1, R.2)
+
+/-- an event with the sampled `IsAborted()` value erased (to compare what a handler DID) -/
+def Ev.erase : Ev → Ev
+  | .aborted h t _ => .aborted h t false
+  | e => e
+
+/-- the events of handler `j` in a trace -/
+def proj (j : Nat) (tr : List Ev) : List Ev := tr.filter (fun e => e.handler = j)
+
+/-- everything handler `i` with actions `h` does when it runs to its end, each action once, in order -/
+def shape (i : Nat) (h : Handler) : List Ev := ((flat i false h).1).map Ev.erase
+
+/-- handlers entered, in order -/
+def enters : List Ev → List Nat
+  | [] => []
+  | .enter j :: rest => j :: enters rest
+  | _ :: rest => enters rest
+
+/-- handlers left, in order -/
+def leaves : List Ev → List Nat
+  | [] => []
+  | .leave j :: rest => j :: leaves rest
+  | _ :: rest => leaves rest
 
 /-- the cursor value that corresponds to a point of the onion for handler `i` of a chain of `s` -/
 def idxOf (s i : Nat) (started ab : Bool) : Int :=
